@@ -93,9 +93,9 @@ func (p *cartPair) observeClock(ctx string) *explore.Fail {
 // ---- (b) time base --------------------------------------------------------------------
 
 type c10Base struct {
-	Sub   int  `json:"sub"`   // preset sub-second count (-1: un-hooked long run from power-on)
-	N     int  `json:"n"`     // cycles to run
-	Halt  bool `json:"halt"`
+	Sub   int   `json:"sub"` // preset sub-second count (-1: un-hooked long run from power-on)
+	N     int   `json:"n"`   // cycles to run
+	Halt  bool  `json:"halt"`
 	Start uint8 `json:"s"`
 }
 
